@@ -46,11 +46,11 @@ var vfMTUs = []int{0, 0, 0, 1200, 1500, 576, 300, 128, 100, 64, 52, 40, 37, 2000
 var vfRBufs = []int{0, 0, 0, 1 << 20, 300000, 200000, 65536, 100000, 33000, 16500, 8000, 250000, 400000, 750000, 2 << 20}
 
 type vfGenOpts struct {
-	smallMTU   bool // allow very small MTUs
-	fixIL      int  // 0 free, 1 force on, 2 force off
-	noBlock    bool
-	bigRTOMax  bool
-	minRBuf    int
+	smallMTU  bool // allow very small MTUs
+	fixIL     int  // 0 free, 1 force on, 2 force off
+	noBlock   bool
+	bigRTOMax bool
+	minRBuf   int
 }
 
 func genSideCfg(rt *rapid.T, label string, o vfGenOpts) vfSideCfg {
